@@ -150,6 +150,7 @@ func RunC06(c *Ctx) {
 		workload.W7Surrogates(16, sink)
 		workload.W7Generated(150000, c.Seed, sink)
 	}
+	workload.W1R(sink)
 	workload.W7Templates(sink)
 	workload.W7Positions(72, sink)
 	// string seeds of W1 in top-level position, every byte everywhere
